@@ -519,6 +519,10 @@ type c20Env struct {
 	yaml   *c20Yaml
 	rng    *rand.Rand
 	force  map[string]string // focus mode: concrete values
+	// bad: (field=class) cells that already fail when mutated alone -> the
+	// first failure seen.  A multi-field configuration containing such a cell
+	// is not exercised again (that bounds the run on a badly broken tree).
+	bad map[string]string
 }
 
 func c20Setup(t *testing.T) (e *c20Env) {
@@ -574,6 +578,7 @@ func c20Setup(t *testing.T) (e *c20Env) {
 		tlsSrv: tlsSrv,
 		yaml:   c20LoadDist(t),
 		rng:    rand.New(rand.NewSource(vhSeed())),
+		bad:    map[string]string{},
 	}
 }
 
@@ -671,7 +676,21 @@ func (e *c20Env) run(id int, abs []c20Abs) (ev *c20Event) {
 		return ev
 	}
 	ev.Accepted = true
+	if len(muts) > 1 {
+		for _, mu := range muts {
+			if why, ok := e.bad[mu.F+"="+mu.C]; ok {
+				ev.Ran = append(ev.Ran, "inferred")
+				ev.Unsafe = append(ev.Unsafe, "(not exercised again) "+mu.F+"="+mu.C+" fails on its own: "+why)
+				return ev
+			}
+		}
+	}
 	e.exercise(c, muts, ev)
+	if len(muts) == 1 && len(ev.Unsafe) > 0 {
+		if _, ok := e.bad[muts[0].F+"="+muts[0].C]; !ok {
+			e.bad[muts[0].F+"="+muts[0].C] = ev.Unsafe[0]
+		}
+	}
 	return ev
 }
 
